@@ -8,6 +8,9 @@ FUNCS = ["transform.negra_mark_heads", "transform.mark_heads_by_rules", "transfo
 ASSUMPTIONS = ["rule tables are read from /repo's transformconst at run time; a category counts as 'listed' when it is one "
                "of the space-separated entries of any priority list of the parent's rule",
                "unlisted categories come from {XX, YY, ZZ} (checked at run time not to occur in the rule)"]
+ASSUMPTIONS += ["marking is also applied to trees that carry head marks from an earlier pass (selector pm: none, all True, all "
+                "False, alternating, marked by mark_heads_by_rules with the ptb preset) and, for rule-based marking, after an earlier "
+                "call in the same process on a tree with the same labels under the other or the same preset (selector prior)"]
 OUTSIDE = ["the NeGra parent category '-' (equal to the label separator)", "constituents with more than 4 children", "rule files (not implemented by the tool)"]
 EDGES = ["HD", "NK", "--", "SB"]
 PRESETS = ["negra", "ptb"]
@@ -47,7 +50,25 @@ def _check_one_head(root):
     return ""
 
 
-def negra_one(k, **kw):
+PREMARK = ["none", "all True", "all False", "alternating", "by mark_heads_by_rules(ptb)"]
+
+
+def _premark(root, pm):
+    """head marks left on the tree by an earlier pass (marking is applied to trees that were marked before, e.g.
+    --trans mark_heads_by_rules negra_mark_heads)"""
+    if pm == 0:
+        return
+    if pm == 4:
+        transform.mark_heads_by_rules(root, mark_heads_preset="ptb")
+        return
+    i = 0
+    for x in all_nodes(root):
+        if x.parent is not None:
+            x.data['head'] = {1: True, 2: False, 3: i % 2 == 0}[pm]
+            i += 1
+
+
+def negra_one(k, pm=0, **kw):
     """one constituent with k children, all edge assignments"""
     root = mknode("VROOT")
     x = mknode("NP", "--")
@@ -59,6 +80,7 @@ def negra_one(k, **kw):
         attach(x, c, rev=True)
         cs.append(c)
     root.data['sid'] = 1
+    _premark(root, pm)
     out = transform.negra_mark_heads(root)
     if out is not root:
         return "did not return the root"
@@ -76,10 +98,11 @@ def negra_one(k, **kw):
     return ""
 
 
-def negra_tree(m, n, **kw):
+def negra_tree(m, n, pm=0, **kw):
     ip, lp = e1_get(kw, m, n)
     edges = ["--"] + [EDGES[kw["e%d" % j] % 3] for j in range(1, m + n)]
     nodes, leaves = build_e1(m, n, ip, lp, edges=edges, rev=True)
+    _premark(nodes[0], pm)
     transform.negra_mark_heads(nodes[0])
     r = _check_one_head(nodes[0])
     if r:
@@ -98,8 +121,23 @@ def negra_tree(m, n, **kw):
     return ""
 
 
-def rules(ps, par, k, hp, lc, dp, dc, up, oth):
-    """exactly one child (position hp) has a category listed in the rule of the parent category"""
+def _rules_tree(plab, labs):
+    root = mknode("VROOT")
+    x = mknode(plab)
+    attach(root, x)
+    cs = []
+    for j, lab in enumerate(labs):
+        c = mkleaf("w%d" % (j + 1), lab, j + 1)
+        attach(x, c, rev=True)
+        cs.append(c)
+    root.data['sid'] = 1
+    return root, cs
+
+
+def rules(ps, par, k, hp, lc, dp, dc, up, oth, prior=0, pm=0):
+    """exactly one child (position hp) has a category listed in the rule of the parent category
+    (prior: an earlier call in the same process on a tree with the same labels, 1 = other preset, 2 = same preset,
+    3 = other preset with the listed child at another position; pm: head marks left on the tree by an earlier pass)"""
     preset = PRESETS[ps]
     table = _tables()[preset]
     parents = _parents(preset)
@@ -107,20 +145,22 @@ def rules(ps, par, k, hp, lc, dp, dc, up, oth):
     listed = _listed(table[pcat])
     ccat = listed[lc % len(listed)]
     unl = [c for c in ["xx", "yy", "zz"] if c not in listed]
-    root = mknode("VROOT")
     plab = DECO[dp] % (pcat.upper() if up else pcat)
-    x = mknode(plab)
-    attach(root, x)
-    cs = []
+    labs = []
     for j in range(k):
         if j == hp:
-            lab = DECO[dc] % (ccat.upper() if up else ccat)
+            labs.append(DECO[dc] % (ccat.upper() if up else ccat))
         else:
-            lab = unl[(j + oth) % len(unl)].upper()
-        c = mkleaf("w%d" % (j + 1), lab, j + 1)
-        attach(x, c, rev=True)
-        cs.append(c)
-    root.data['sid'] = 1
+            labs.append(unl[(j + oth) % len(unl)].upper())
+    if prior:
+        plabs = labs if prior < 3 else labs[::-1]
+        proot, _pcs = _rules_tree(plab, plabs)
+        try:
+            transform.mark_heads_by_rules(proot, mark_heads_preset=PRESETS[1 - ps] if prior != 2 else preset)
+        except Exception as e:      # noqa
+            return "earlier call with the other preset failed: %s: %s" % (type(e).__name__, e)
+    root, cs = _rules_tree(plab, labs)
+    _premark(root, pm)
     out = transform.mark_heads_by_rules(root, mark_heads_preset=preset)
     if out is not root:
         return "did not return the root"
@@ -128,8 +168,9 @@ def rules(ps, par, k, hp, lc, dp, dc, up, oth):
     if r:
         return r
     if cs[hp].data['head'] is not True:
-        return "%s preset: %s -> %s: child %d (the only listed category) is not the head" % (
-            preset, plab, [c.data['label'] for c in cs], hp + 1)
+        return "%s preset: %s -> %s: child %d (the only listed category) is not the head%s" % (
+            preset, plab, [c.data['label'] for c in cs], hp + 1,
+            (" (after an earlier call, kind %d)" % prior) if prior else "")
     return ""
 
 
@@ -172,13 +213,13 @@ def conds(tier):
     q = tier == "quick"
     cs = []
     for k in ([1, 2, 3, 4] if q else [1, 2, 3, 4, 5]):
-        cs.append(Cond("negra-k%d" % k, "harness.c15:negra_one", [P("e%d" % j, "int", 0, 4) for j in range(1, k + 1)],
+        cs.append(Cond("negra-k%d" % k, "harness.c15:negra_one", [P("e%d" % j, "int", 0, 4) for j in range(1, k + 1)] + [P("pm", "int", 0, 5)],
                        fixed={"k": k}, shard=(["e1"] if k >= 4 else []) + (["e2"] if k >= 5 else []),
                        timeout=300 if q else 1500, functions=FUNCS[:1]))
     for (m, n) in ([(2, 2), (2, 3), (3, 2)] if q else [(2, 3), (3, 2), (3, 3), (2, 4)]):
         es = [P("e%d" % j, "int", 0, 3) for j in range(1, m + n)]
-        cs.append(Cond("negratree-m%d-n%d" % (m, n), "harness.c15:negra_tree", e1_params(m, n) + es,
-                       fixed={"m": m, "n": n}, pre=[e1_wf_expr(m, n)], shard=["e1"] + (["e2"] if m + n >= 5 else []) +
+        cs.append(Cond("negratree-m%d-n%d" % (m, n), "harness.c15:negra_tree", e1_params(m, n) + es + [P("pm", "int", 0, 5)],
+                       fixed={"m": m, "n": n}, pre=[e1_wf_expr(m, n), "pm == (e1 + lp1) % 5"], shard=["e1"] + (["e2"] if m + n >= 5 else []) +
                        (["lp1"] if m + n >= 6 else []),
                        timeout=400 if q else 2400, functions=FUNCS[:1], note="edges from HD, NK, -- on whole trees"))
     npar = dict((p, len(_parents(p))) for p in PRESETS)
@@ -188,8 +229,9 @@ def conds(tier):
             cs.append(Cond("rules-%s-k%d" % (PRESETS[ps], k), "harness.c15:rules",
                            [P("par", "int", 0, npar[PRESETS[ps]]), P("hp", "int", 0, k), P("lc", "int", 0, 6 if q else 20),
                             P("dp", "int", 0, 3 if q else 4), P("dc", "int", 0, 3 if q else 4), P("up", "bool"),
-                            P("oth", "int", 0, 1)],
-                           fixed={"ps": ps, "k": k}, pre=["_h.lc_ok(%d, par, lc)" % ps], shard=["hp", "up", "dp"],
+                            P("oth", "int", 0, 1), P("prior", "int", 0, 4), P("pm", "int", 0, 5)],
+                           fixed={"ps": ps, "k": k}, pre=["_h.lc_ok(%d, par, lc)" % ps, "pm == (par + lc) % 5",
+                                                          "prior == (par + lc + dc) % 4" if q else "True"], shard=["hp", "up", "dp"],
                            timeout=600 if q else 3000, functions=FUNCS[1:],
                            note="parent = every category of the preset with a non-empty rule; listed child category = "
                                 "each of the first %d listed categories" % (6 if q else 20)))
